@@ -53,10 +53,16 @@ theorem from_to_dict_datainfo (di : DataInfo) :
     DataInfo.fromDict di.toDict = some { di with path := none } :=
   DataInfo.from_to di
 
-/-- `initial_individual_estimates` (a DataFrame of any shape with one cell per label and column):
-    `DataFrame.from_dict(df.to_dict())` gives the frame back, every cell unchanged. -/
+/-- `initial_individual_estimates` (a DataFrame of any shape: one row per label, one cell per column):
+    `pd.DataFrame(**split)` of `df.to_dict(orient='split')` gives the frame back, every label and
+    cell unchanged.  Since /repo 31739c1 the dict has string keys only (`individual_estimates_keys`),
+    so this is also the round trip through the JSON text. -/
 theorem from_to_dict_individual_estimates (ie : IE) (hwf : ie.WF) : IE.fromDict ie.toDict = some ie :=
   IE.from_to ie hwf
+
+/-- the dict of the individual estimates is JSON as it is: its keys are these three strings
+    (before 31739c1 the integer index labels were dict keys, which JSON turns into strings) -/
+theorem individual_estimates_keys (ie : IE) : ie.toDict.keys = ["index", "columns", "data"] := rfl
 
 /-- `Model`: the content comes back; name, description and dataset path are reset. -/
 theorem from_to_dict (h : c.Lawful) (m : Model E M) (hg : m.Good) :
@@ -132,13 +138,13 @@ theorem encode_injective_leaf (h : c.Lawful) (rd : R → Nat) (num : Flt → Str
     one individual estimate — have the same pre-image, for every dataset. -/
 theorem encode_lossy_leaf_collision (rd : R → Nat) (num : Flt → String) (dumpsS : Json → String)
     (a b : Flt) (hab : a ≠ b) (hnum : num a = num b) (ds : Dataset R) (m : Model E M) :
-    let ma := { m with initialIndividualEstimates := some { index := ["1"], cols := [("ETA_1", [.flt a])] } }
-    let mb := { m with initialIndividualEstimates := some { index := ["1"], cols := [("ETA_1", [.flt b])] } }
+    let ma := { m with initialIndividualEstimates := some { index := [.int 1], columns := ["ETA_1"], data := [[.flt a]] } }
+    let mb := { m with initialIndividualEstimates := some { index := [.int 1], columns := ["ETA_1"], data := [[.flt b]] } }
     ma.blank ≠ mb.blank ∧
     encode c rd (fun j => dumpsS (j.mapFlt num)) ds ma = encode c rd (fun j => dumpsS (j.mapFlt num)) ds mb := by
   constructor
   · intro h
-    have := congrArg (fun x => x.initialIndividualEstimates.map (fun ie => ie.cols.map (fun c => c.2.map Json.floats))) h
+    have := congrArg (fun x => x.initialIndividualEstimates.map (fun ie => ie.data.map (fun r => r.map Json.floats))) h
     simp [Model.blank, Json.floats] at this
     exact hab this
   · simp [encode, Model.blank, Model.toDict, ieOptToDict, IE.toDict, Json.mapFlt, Json.mapFltObj, Json.mapFltList, hnum]
